@@ -99,6 +99,70 @@ def SQ(x):
 FACTS = []
 
 
+# ---- proof-producing normalisation of pure products (no Z3 nonlinear reasoning: explicit associativity / commutativity steps) --------------
+def is_mono(ex):
+    if ex.kind == "atom":
+        return True
+    if ex.kind == "mul":
+        return is_mono(ex.a) and is_mono(ex.b)
+    if ex.kind == "sq":
+        return is_mono(ex.a)
+    return False
+
+
+def ztree(ex):
+    if ex.kind == "atom":
+        return ex.name
+    if ex.kind == "mul":
+        return ("*", ztree(ex.a), ztree(ex.b))
+    if ex.kind == "sq":
+        return ("*", ztree(ex.a), ztree(ex.a))
+    raise ValueError(ex.kind)
+
+
+def zs(t):
+    return t if isinstance(t, str) else "(%s * %s)" % (zs(t[1]), zs(t[2]))
+
+
+def rn(lst):
+    return lst[0] if len(lst) == 1 else ("*", lst[0], rn(lst[1:]))
+
+
+def mono_norm(t, steps):
+    """emit lemma calls proving  t == rn(result)  (right-nested product of the sorted atoms)"""
+    def assoc(x, y, z):
+        steps.append("    vstd::arithmetic::mul::lemma_mul_is_associative(%s, %s, %s);" % (zs(x), zs(y), zs(z)))
+
+    def comm(x, y):
+        steps.append("    vstd::arithmetic::mul::lemma_mul_is_commutative(%s, %s);" % (zs(x), zs(y)))
+
+    def insert(a, lst):          # a * rn(lst) == rn(result)
+        b = lst[0]
+        if a <= b:
+            return [a] + lst
+        if len(lst) == 1:
+            comm(a, b)
+            return [b, a]
+        r = rn(lst[1:])
+        assoc(a, b, r)
+        comm(a, b)
+        assoc(b, a, r)
+        return [b] + insert(a, lst[1:])
+
+    def merge(la, lb):           # rn(la) * rn(lb) == rn(result)
+        if len(la) == 1:
+            return insert(la[0], lb)
+        assoc(la[0], rn(la[1:]), rn(lb))
+        return insert(la[0], merge(la[1:], lb))
+
+    def norm(u):
+        if isinstance(u, str):
+            return [u]
+        return merge(norm(u[1]), norm(u[2]))
+
+    return norm(t)
+
+
 def selfcheck(name, params, hyps, goal, cofs):
     """Schwartz-Zippel sanity check of the polynomial identity (so that a wrong cofactor is found here, not by a Z3 timeout)"""
     import random
@@ -147,6 +211,17 @@ def fact(name, doc, params, hyps, goal, cofs, canon=()):
             else:
                 out.append("    lemma_z_sum(%s, %s);" % (acc, t))
                 acc = "%s + %s" % (acc, t)
+    elif is_mono(gl) and is_mono(gr):
+        steps = []
+        la = mono_norm(ztree(gl), steps)
+        lb = mono_norm(ztree(gr), steps)
+        assert la == lb, name
+        out.append("    // both sides are products of the same atoms: explicit associativity / commutativity steps to the sorted right-nested product")
+        out += steps
+        out.append("    assert(%s == %s);" % (gl.z(), zs(rn(la))))
+        out.append("    assert(%s == %s);" % (gr.z(), zs(rn(la))))
+        out.append("    assert(%s - %s == 0);" % (gl.z(), gr.z()))
+        out.append("    lemma_z_atom(0);")
     else:
         out.append("    assert(%s - %s == 0) by (nonlinear_arith);" % (gl.z(), gr.z()))
         out.append("    lemma_z_atom(0);")
